@@ -491,7 +491,8 @@ func r10_6(c *Ctx, rule string) {
 			if pol != e.polarity {
 				c.R.Check(cleared == 0 && unknown == 0, rule, con, c.pos(stores[0]), "patterns of the other polarity cannot clear the flag", "the flag is computed from patterns of the wrong polarity (it can be cleared although no "+e.what+" exist): pruning is wrongly enabled for the lists that need full matching")
 			} else {
-				c.R.Check(cleared > 0, rule, con, c.pos(stores[0]), "a wildcard among the "+e.what+" clears the flag", "the flag is never cleared by "+e.what+": directories are pruned by literal prefix although a pattern has wildcards")
+				// (cleared on a path of its own, or assigned a value that depends on the scan)
+				c.R.Check(cleared+unknown > 0, rule, con, c.pos(stores[0]), "a wildcard among the "+e.what+" clears the flag", "the flag is never cleared by "+e.what+": directories are pruned by literal prefix although a pattern has wildcards")
 			}
 		}
 	}
